@@ -47,16 +47,19 @@ def rintFallback (x : Nat) : Except Err Nat := Tetl.C13.Model.rintFallback F.cv 
 def lrintFallback (w : Nat) (x : Nat) : Except Err Int := Tetl.C13.Model.lrintFallback F.cv w x
 
 /-! ### tetl's own fallbacks -/
-/-- signbit.hpp `signbit_fallback`: shifts the sign bit down -/
+/-- signbit.hpp `signbit_fallback`: shifts the sign bit down (the alternative of `etl::signbit` for compilers
+    without a constexpr `__builtin_signbit`; GCC takes the builtin on both paths) -/
 def signbitFallback (x : Nat) : Bool := (x / F.signBit) % 2 == 1
 
-/-- copysign.hpp `copysign_fallback` -/
+/-- copysign.hpp `copysign_fallback`: `etl::signbit(x) != etl::signbit(y) ? -x : x` -/
 def copysignFallback (x y : Nat) : Nat :=
   if signbitFallback F x != signbitFallback F y then neg F x else x
 
-/-- _math/abs.hpp `abs_impl`: `n >= 0 ? n : n * -1` -/
+/-- _math/abs.hpp `abs_impl`: `n > 0 ? n : n == 0 ? T(0) : n * -1` (a NaN fails both comparisons) -/
 def absImpl (x : Nat) : Nat :=
-  if !F.isNaN x && decide (0 ≤ F.key x) then x else neg F x
+  if !F.isNaN x && decide (0 < F.key x) then x
+  else if !F.isNaN x && decide (F.key x = 0) then 0
+  else neg F x
 
 /-- nextafter.hpp `detail::nextafter` -/
 def nextafter (x y : Nat) : Nat :=
@@ -99,7 +102,7 @@ def lrint (w : Nat) : Path → Nat → Except Err (Option Int)
   | .ct, x => (lrintFallback F w x).map some
 def signbit : Path → Nat → Bool
   | .rt, x => F.signbit x            -- __builtin_signbit
-  | .ct, x => signbitFallback F x
+  | .ct, x => F.signbit x            -- __builtin_signbit is usable in constant expressions (324662e)
 def copysign : Path → Nat → Nat → Nat
   | .rt, x, y => F.copysign x y      -- __builtin_copysign
   | .ct, x, y => copysignFallback F x y
